@@ -55,6 +55,36 @@ type Case struct {
 	Source string // query | form | multipart | header | cookie | json | xml | cbor | uri
 	Split  bool
 	Val    V
+	// Interleave (query, form, multipart): the elements of the slice fields are added one by one with AddParam /
+	// AddFormData, taking turns between the fields, instead of through the struct helper (which adds a key's values
+	// back to back)
+	Interleave bool `json:",omitempty"`
+}
+
+// interleaved calls add(key, value) for the elements of the slice fields in round-robin order
+func interleaved(v V, add func(k, val string)) {
+	for i := 0; ; i++ {
+		any := false
+		if i < len(v.SS) {
+			add("ss", v.SS[i])
+			any = true
+		}
+		if i < len(v.IS) {
+			add("is", strconv.Itoa(v.IS[i]))
+			any = true
+		}
+		if i < len(v.FS) {
+			add("fs", ff(v.FS[i]))
+			any = true
+		}
+		if i < len(v.BS) {
+			add("bs", strconv.FormatBool(v.BS[i]))
+			any = true
+		}
+		if !any {
+			return
+		}
+	}
 }
 
 type server struct {
@@ -142,12 +172,26 @@ func check(c Case) vk.Verdict {
 	url := "http://example.com/"
 	switch c.Source {
 	case "query":
-		r.SetParamsWithStruct(v)
-	case "form":
-		r.SetFormDataWithStruct(v)
-	case "multipart":
-		r.SetFormDataWithStruct(v)
-		r.AddFileWithReader("f.txt", io.NopCloser(strings.NewReader("x")))
+		if c.Interleave {
+			scalars := v
+			scalars.SS, scalars.IS, scalars.FS, scalars.BS = nil, nil, nil, nil
+			r.SetParamsWithStruct(scalars)
+			interleaved(v, func(k, val string) { r.AddParam(k, val) })
+		} else {
+			r.SetParamsWithStruct(v)
+		}
+	case "form", "multipart":
+		if c.Interleave {
+			scalars := v
+			scalars.SS, scalars.IS, scalars.FS, scalars.BS = nil, nil, nil, nil
+			r.SetFormDataWithStruct(scalars)
+			interleaved(v, func(k, val string) { r.AddFormData(k, val) })
+		} else {
+			r.SetFormDataWithStruct(v)
+		}
+		if c.Source == "multipart" {
+			r.AddFileWithReader("f.txt", io.NopCloser(strings.NewReader("x")))
+		}
 	case "header":
 		h := map[string][]string{"X-S": {v.S}, "X-I": {strconv.Itoa(v.I)}, "X-I8": {strconv.Itoa(int(v.I8))}, "X-I16": {strconv.Itoa(int(v.I16))}, "X-I32": {strconv.Itoa(int(v.I32))},
 			"X-I64": {strconv.FormatInt(v.I64, 10)}, "X-U": {strconv.FormatUint(uint64(v.U), 10)}, "X-U8": {strconv.Itoa(int(v.U8))}, "X-U16": {strconv.Itoa(int(v.U16))},
@@ -234,6 +278,9 @@ var finite32 = rapid.Float32().Filter(func(f float32) bool { return !math.IsNaN(
 
 func genCase(t *rapid.T) Case {
 	c := Case{Source: rapid.SampledFrom([]string{"query", "form", "multipart", "header", "cookie", "json", "xml", "cbor", "uri"}).Draw(t, "source"), Split: rapid.Bool().Draw(t, "split")}
+	if c.Source == "query" || c.Source == "form" || c.Source == "multipart" {
+		c.Interleave = rapid.Bool().Draw(t, "interleave")
+	}
 	sg := strGen(c.Source, c.Split)
 	ext := func(lo, hi int64) int64 {
 		return rapid.OneOf(rapid.Int64Range(lo, hi), rapid.SampledFrom([]int64{lo, hi, 0, -1, 1})).Filter(func(x int64) bool { return x >= lo && x <= hi }).Draw(t, "int")
